@@ -5,6 +5,7 @@
 //!   replay <module> <behaviours.ndjson> [opts]   spec -> code
 //!   record <module> <out.ndjson> [opts]          code -> spec (trace for TLC)
 mod authz;
+mod grpcauth;
 mod cfgcenter;
 mod codec;
 mod logfile;
